@@ -11,6 +11,7 @@ import (
 	"os"
 	"path/filepath"
 	"testing"
+	"time"
 
 	"github.com/Tnze/go-mc/save/region"
 	"pgregory.net/rapid"
@@ -151,6 +152,10 @@ func c14Check(c C14Case) *pbt.Violation {
 			if r.ExistSector(op.X, op.Z) != ok {
 				return pbt.V("c14.exist", "chunks never written report absence", "%s: ExistSector=%v, model %v", step, !ok, ok)
 			}
+		case "tick":
+			// let the wall clock reach the next second (chunk timestamps have one-second resolution, so
+			// "same timestamp" hides whether a later write refreshed memory and header alike)
+			time.Sleep(time.Until(time.Now().Truncate(time.Second).Add(time.Second + 5*time.Millisecond)))
 		case "pad":
 			if err := r.PadToFullSector(); err != nil {
 				return pbt.V("c14.pad", "padding", "%s: %v", step, err)
@@ -232,6 +237,9 @@ func genRegOps(t *rapid.T, n int, small bool) []RegOp {
 			op.Seed = rapid.Byte().Draw(t, "seed")
 		}
 		ops = append(ops, op)
+	}
+	if !small && len(ops) >= 3 && rapid.IntRange(0, 79).Draw(t, "tick") == 41 {
+		ops[rapid.IntRange(1, len(ops)-1).Draw(t, "tick_at")].K = "tick" // at most one per history: it costs up to a second
 	}
 	return ops
 }
